@@ -261,38 +261,48 @@ inline int main(int argc, char ** argv, const std::vector<Sub> & subs)
     Runner r(*sub, st, outdir);
     r.enumShard = strtoull(argv[4], nullptr, 10);
     r.enumShards = strtoull(argv[5], nullptr, 10);
+    // sharding: a leaf belongs to the shard selected by a hash of its first `shardDepth` digits, so a
+    // shard abandons foreign subtrees at that depth instead of enumerating their leaves
+    const size_t shardDepth = argc > 6 ? strtoull(argv[6], nullptr, 10) : 3;
+    const uint64_t myShard = r.enumShard, nShards = r.enumShards;
+    r.enumShards = 1;  // commit() must not apply the leaf-index rule as well
     r.src.mode = Src::ENUM;
     struct Digit {int64_t cur, lo, hi;};
     std::vector<Digit> stack;
     size_t depth = 0;
     r.src.raw = [&](int64_t lo, int64_t hi) -> int64_t {
+        int64_t v;
         if (depth < stack.size()) {
           if (stack[depth].lo != lo || stack[depth].hi != hi) {
             fprintf(stderr, "HARNESS-ERROR enum: non-deterministic draw domain\n");
             exit(3);
           }
-          return stack[depth++].cur;
+          v = stack[depth++].cur;
+        } else {
+          stack.push_back(Digit{lo, lo, hi});
+          depth++;
+          v = lo;
         }
-        stack.push_back(Digit{lo, lo, hi});
-        depth++;
-        return lo;
+        if (depth == shardDepth && nShards > 1) {
+          uint64_t h = 1469598103934665603ULL;
+          for (size_t k = 0; k < shardDepth; ++k) {h ^= static_cast<uint64_t>(stack[k].cur) + 0x9e37; h *= 1099511628211ULL; h ^= h >> 29;}
+          if (h % nShards != myShard) {throw EnumNotMine{};}
+        }
+        return v;
       };
-    uint64_t leaves = 0, mine = 0, nontrivMine = 0;
+    uint64_t mine = 0;
     int rc = 0;
     while (true) {
       depth = 0;
-      r.enumLeaf = leaves;
-      uint64_t ntBefore = st.nontrivial;
       Runner::Outcome o = r.once();
-      leaves++;
-      if (o != Runner::NOTMINE) {mine++; nontrivMine += st.nontrivial - ntBefore;}
+      bool shallow = depth < shardDepth;  // leaf above the sharding depth: owned by shard 0
+      if (o != Runner::NOTMINE && !(shallow && nShards > 1 && myShard != 0)) {mine++;}
       if (o == Runner::FAIL) {rc = 1; break;}
       stack.resize(depth);
       while (!stack.empty() && stack.back().cur >= stack.back().hi) {stack.pop_back();}
       if (stack.empty()) {break;}
       stack.back().cur++;
     }
-    st.classes["enum-leaves-total"] = leaves;
     st.classes["enum-leaves-this-shard"] = mine;
     st.classes["enum-complete"] = (rc == 0) ? 1 : 0;
     writeStats(outdir, st, *sub, "enum");
